@@ -8,6 +8,7 @@ import Props.C08
 import Proofs.ParserMulti
 import Proofs.Accept
 import Proofs.Accept2
+import Proofs.Accept3
 import Facts.Generated
 namespace C10
 open Esdt
@@ -349,8 +350,31 @@ theorem nftTransfer_continuation_accepted (envS envD : Env) (cS cD : Call) (ctxS
 example (a k : Bytes) : GatePasses [] a k fungibleDefault false ∧ tokenOf (Accts.read [] a k) = some fungibleDefault :=
   ⟨Or.inr (Or.inr ⟨rfl, rfl⟩), rfl⟩
 
--- PARTIAL: the same clause for MultiESDTNFTTransfer deliveries (per item one of the two cases above; the loop is not
--- yet composed into a total-correctness statement) is decided by the C10 oracle (every emitted message delivered; a
--- refusal must be one of the legitimate ones) and the correspondence check.
+/-- FULL (MultiESDTNFTTransfer; same clause): the destination half of a multi transfer — the delivered message: count,
+    three arguments per item, optionally an attached call — SUCCEEDS and leaves exactly the storage the items state,
+    whenever the count fits the argument list and EVERY item is accepted at the state it meets (`DestItemsOK`,
+    Proofs/Accept3.lean — per item exactly the property's list: an NFT / SFT item's payload decodes to an entry with
+    metadata, the destination's slot is empty or decodes, the gates pass for what is held and for what arrives, no OTHER
+    hash is held, the merged quantity is positive and fits; a fungible item meets a well-formed fungible entry whose gate
+    passes; payability confirmed wherever it has to be verified — threshold: the bare message's own argument count).
+    Repeated and mixed items included; any call type. Total correctness. That the message a successful sender-side call
+    emitted HAS this form (count :: payload ++ attached call, every NFT payload the sender's entry with the transferred
+    quantity) is `parser_matches_multi_message` / C01.multi_conservation_history. -/
+theorem multi_delivery_accepted (env : Env) (c : Call) (ctx : Ctx) (cnt : Bytes)
+    (h0 : c.args[0]? = some cnt) (hval : c.callValue = 0) (hne : c.caller ≠ c.rcv)
+    (hsnd : present env.nshards env.self c.caller = false) (hdst : present env.nshards env.self c.rcv = true)
+    (hnf : ctx.failAt = none)
+    (n : Nat) (hn : n = u64 (beNat cnt)) (hn0 : n ≠ 0) (hfit : 3 * n + 1 ≤ c.args.length) (hphys : c.args.length < two64)
+    (A' : Accts) (hitems : DestItemsOK env c (mustVerifyPayable c (3 * n + 1)) n 1 ctx.accts A') :
+    ∃ out ctx', multiTransfer env c ctx = .ok (out, ctx') ∧ out.rc = 0 ∧ ctx'.accts = A' :=
+  multiTransfer_delivery_accepted env c ctx cnt h0 hval hne hsnd hdst hnf n hn hn0 hfit hphys A' hitems
+
+/-- non-vacuity: one fungible item arriving at a destination that holds nothing, nothing paused, no payability question
+    (a callback): the item is accepted -/
+example (env : Env) (c : Call) (tok : Bytes) (hrcv : c.rcv ≠ esdtSCAddress) :
+    DestItemOK env c false tok [] [5] [] (Accts.write [] c.rcv (esdtKeyPrefix ++ tok)
+      (storedForm { fungibleDefault with value := some ((0 : Int) + (beNat [5] : Int)) })) :=
+  DestItemOK.fungible fungibleDefault 0 (by decide) (fun h => by cases h) rfl rfl rfl (by decide)
+    (Or.inr (Or.inr ⟨rfl, rfl⟩)) (by decide +kernel)
 
 end C10
